@@ -3,9 +3,9 @@
    and how the parser recovers from what it cannot parse.
 
    A sheet is a sequence of tokens  [k |-> kind, s |-> spelling, v |-> bare name, col |-> <<r, g, b>> or <<>>]  written
-   with one blank between neighbours (so every run of selector tokens is a chain of descendant
-   combinators).  Kinds:
-     ident class hash star comma lbrace rbrace semi colon at lround rround lsq rsq func str num bang cdo cdc
+   with one blank between neighbours (so the simple selectors of a run are joined by descendant
+   combinators, or by a child combinator where a `>` stands between them).  Kinds:
+     ident class hash star gt comma lbrace rbrace semi colon at lround rround lsq rsq func str num bang cdo cdc
 
    Two descriptions:
      Sheet(T)     the transcription of parse_stylesheet: many0(parse_statement) with
@@ -41,17 +41,21 @@ Sub(T, a, b) == IF b < a THEN <<>> ELSE SubSeq(T, a, b)
 KindAt(T, i) == IF i >= 1 /\ i <= Len(T) THEN T[i].k ELSE "eof"
 
 (* ------------------------- the code: parse_stylesheet ------------------------- *)
-\* parse_selector: a non-empty run of simple selectors (white space between them = descendant combinator)
+\* parse_selector: a non-empty run of simple selectors and `>` (white space between simple selectors = descendant
+\* combinator); the run is a selector only if every `>` has a simple selector on both sides (GoodRun) - otherwise
+\* parse_selector fails as a whole
 RECURSIVE SelRunEnd(_, _)
-SelRunEnd(T, i) == IF KindAt(T, i) \in SelKinds THEN SelRunEnd(T, i + 1) ELSE i
+SelRunEnd(T, i) == IF KindAt(T, i) \in SelKinds \cup {"gt"} THEN SelRunEnd(T, i + 1) ELSE i
+GoodRun(R) == /\ R # <<>> /\ R[1].k # "gt" /\ R[Len(R)].k # "gt"
+              /\ \A m \in 1..(Len(R) - 1) : ~(R[m].k = "gt" /\ R[m + 1].k = "gt")
 \* separated_list0(",", parse_selector): a comma that no selector follows is not consumed
 RECURSIVE MoreSels(_, _, _)
 MoreSels(T, e, acc) ==
   LET e2 == SelRunEnd(T, e + 1) IN
-  IF KindAt(T, e) = "comma" /\ e2 > e + 1 THEN MoreSels(T, e2, Append(acc, Sub(T, e + 1, e2 - 1)))
+  IF KindAt(T, e) = "comma" /\ e2 > e + 1 /\ GoodRun(Sub(T, e + 1, e2 - 1)) THEN MoreSels(T, e2, Append(acc, Sub(T, e + 1, e2 - 1)))
   ELSE [sels |-> acc, next |-> e]
 SelList(T, i) == LET e == SelRunEnd(T, i) IN
-                 IF e = i THEN [sels |-> <<>>, next |-> i] ELSE MoreSels(T, e, << Sub(T, i, e - 1) >>)
+                 IF e = i \/ ~GoodRun(Sub(T, i, e - 1)) THEN [sels |-> <<>>, next |-> i] ELSE MoreSels(T, e, << Sub(T, i, e - 1) >>)
 
 \* parse_value: tokens up to the `;` / `}` that ends the declaration; brackets nest; a `}` closes the innermost
 \* `{` (brackets left open inside it end with it) or, when there is none, ends the value
@@ -140,10 +144,12 @@ StmtScan(T, j, isAt) ==
   ELSE StmtScan(T, j + 1, isAt)
 RefStmt(T, i) == IF KindAt(T, i) = "at" THEN StmtScan(T, i + 1, TRUE) ELSE StmtScan(T, i, FALSE)
 
+\* a selector list: complex selectors separated by commas; a complex selector: compound selectors joined by
+\* combinators, so a combinator stands neither first nor last nor next to another one
 ValidSelList(P) == /\ P # <<>>
-                   /\ \A i \in 1..Len(P) : P[i].k \in SelKinds \cup {"comma"}
-                   /\ P[1].k # "comma" /\ P[Len(P)].k # "comma"
-                   /\ \A i \in 1..(Len(P) - 1) : ~(P[i].k = "comma" /\ P[i + 1].k = "comma")
+                   /\ \A i \in 1..Len(P) : P[i].k \in SelKinds \cup {"comma", "gt"}
+                   /\ P[1].k \notin {"comma", "gt"} /\ P[Len(P)].k \notin {"comma", "gt"}
+                   /\ \A i \in 1..(Len(P) - 1) : ~(P[i].k \in {"comma", "gt"} /\ P[i + 1].k \in {"comma", "gt"})
 \* the content of a block (properly nested) cut at its top-level `;`
 DepthBefore(C, j) == Cardinality({i \in 1..(j - 1) : C[i].k \in Openers}) - Cardinality({i \in 1..(j - 1) : C[i].k \in Closers})
 TopSemis(C) == {j \in 1..Len(C) : C[j].k = "semi" /\ DepthBefore(C, j) = 0}
@@ -182,14 +188,15 @@ Bare(val) == IF Important(val) THEN Sub(val, 1, Len(val) - 2) ELSE val
 ColourDecls(decls) ==
   LET ds == SelectSeq(decls, LAMBDA d : d.prop = "color" /\ Len(Bare(d.val)) = 1 /\ Bare(d.val)[1].k = "hash" /\ Bare(d.val)[1].col # <<>>) IN
   [m \in 1..Len(ds) |-> [prop |-> "color", val |-> Bare(ds[m].val)[1].col, imp |-> Important(ds[m].val)]]
-Compound(t, first) ==
-  [comb |-> IF first THEN "" ELSE "desc",
+Compound(t, comb) ==
+  [comb |-> comb,
    name |-> IF t.k = "ident" THEN t.s ELSE "",
    star |-> t.k = "star",
    cls |-> IF t.k = "class" THEN << t.v >> ELSE <<>>,
    id |-> IF t.k = "hash" THEN t.v ELSE "",
    nth |-> <<>>]
-AbsSel(run) == [m \in 1..Len(run) |-> Compound(run[m], m = 1)]
+AbsSel(run) == LET ix == SelectSeq([m \in 1..Len(run) |-> m], LAMBDA m : run[m].k # "gt") IN
+               [q \in 1..Len(ix) |-> Compound(run[ix[q]], IF q = 1 THEN "" ELSE IF run[ix[q] - 1].k = "gt" THEN "child" ELSE "desc")]
 \* rule sets without a style, or without a selector, leave no trace (do_add_css)
 Abs(rules) ==
   LET live == SelectSeq(rules, LAMBDA r : ColourDecls(r.decls) # <<>> /\ r.sels # <<>>) IN
